@@ -63,6 +63,20 @@ class Canon:
                         counts[it.optional_vars.id] = 2
         self.single = {k: v for k, v in defs.items() if counts.get(k) == 1 and k not in self.params and k not in self.loopnames
                        and not isinstance(v, (ast.List, ast.Dict, ast.Set, ast.ListComp, ast.DictComp))}
+        # locals assigned more than once: named after their FIRST definition, so that renaming them changes no key
+        self.multi_first: Dict[str, ast.expr] = {}
+        order_seen: Dict[str, ast.expr] = {}
+        for n in walk_no_nested(fn):
+            if isinstance(n, ast.Assign):
+                for t in n.targets:
+                    if isinstance(t, ast.Name) and t.id not in order_seen:
+                        order_seen[t.id] = n.value
+            elif isinstance(n, ast.AnnAssign) and isinstance(n.target, ast.Name) and n.value is not None and n.target.id not in order_seen:
+                order_seen[n.target.id] = n.value
+        for k, v in order_seen.items():
+            if counts.get(k, 0) >= 2 and k not in self.params and k not in self.loopnames:
+                self.multi_first[k] = v
+        self._busy: Set[str] = set()
         # parameters bound to caller expressions (delegated guards are expressed in the caller's vocabulary)
         for k, v in self.bindings.items():
             if counts.get(k, 0) == 0:
@@ -99,6 +113,13 @@ class Canon:
                         return ast.Name(id=canon._loop_text(n.id, depth), ctx=ast.Load())
                     if n.id in canon.single and depth < 4:
                         return canon._inline(copy.deepcopy(canon.single[n.id]), depth + 1)
+                    if n.id in canon.multi_first and n.id not in canon._busy:
+                        canon._busy.add(n.id)
+                        try:
+                            first = ast.unparse(canon._inline(copy.deepcopy(canon.multi_first[n.id]), depth + 2))[:48]
+                        finally:
+                            canon._busy.discard(n.id)
+                        return ast.Name(id="local<" + first + ">", ctx=ast.Load())
                 return n
 
             def visit_ListComp(self, n):
